@@ -17,7 +17,11 @@ RULE = ("A trace segment is the life of ONE boc.MerkleProver (Reset = NewMerkleP
         "(Prim!Sha256) and judged in TLC: Merkle-proof root, stored hash/depth = original, level-0 hash of the pruned tree = "
         "original hash, every pruned-branch cell stores hash/depth of the node at the same path, the bag is exactly "
         "Proof(T,R,PS') of the prune set it exhibits with PS' accounted for by THIS session's prunes, value of the key readable "
-        "from the proof and equal to the original; absent key => error. Non-trivial = a proof judged; distinct = distinct "
+        "from the proof and equal to the original; absent key => error. TWO-STEP proofs: the source of a prover is the tree under "
+        "an earlier proof (pruned branches, root of level 1; spec-written first proofs for every single / pair of positions of "
+        "depth <= 2 and for every 1-2 kept keys of a dictionary in S->C, library-made first proofs in C->S); the second proof is "
+        "judged with the level-0 hashes / depths of Cells!InfoTable against the source and the original tree (clauses level-mask, "
+        "stored-hash/depth, pruned-cell for kept, re-pruned and newly pruned branches). Non-trivial = a proof judged; distinct = distinct "
         "proof bags + distinct refusals.")
 
 TRACE = ("MerkleProof_Trace", "trace/MerkleProof_Trace.cfg")
@@ -31,17 +35,22 @@ def vector_of(seg, upto):
         mode = "tree"          # same cells, every cell its own pointer, as the library's encoder builds them
     cs = [{"b": c["b"], "x": c["x"], "r": c["r"]} for c in r["cells"]]
     evs = seg[1:upto + 1]
+    v = {"src": r.get("src", ""), "cells": cs, "roots": r["roots"], "modes": [mode]}
+    if "srcboc" in r:         # two-step: the source is the tree under this (recorded or spec-written) first proof of `orig`
+        v.update(srcboc=r["srcboc"], orig=[{"b": c["b"], "x": c["x"], "r": c["r"]} for c in r["orig"]["cells"]])
     if r.get("kind") == "dict":
-        return {"t": "dict", "src": r.get("src", ""), "n": r["n"], "cells": cs, "roots": r["roots"],
-                "keys": [e["key"] for e in evs if e.get("k") == "Key"], "modes": [mode]}
-    return {"t": "walk", "src": r.get("src", ""), "cells": cs, "roots": r["roots"],
-            "script": [{"k": e["k"], "c": e["c"], "i": e.get("i", 0)} for e in evs if e.get("k") in ("Cursor", "Ref", "Up", "Prune", "Create")], "modes": [mode]}
+        v.update(t="dict", n=r["n"], keys=[e["key"] for e in evs if e.get("k") == "Key"])
+    else:
+        v.update(t="walk", script=[{"k": e["k"], "c": e["c"], "i": e.get("i", 0)} for e in evs if e.get("k") in ("Cursor", "Ref", "Up", "Prune", "Create")])
+    return v
 
 
 def finding_key(e, reason, cls):
     k = e.get("k")
     if cls == "leak":
         return "C18:prover-reuse:prunes-leak"                # pruned branches of an earlier request of the same prover reappear
+    if cls == "partial":
+        return "C18:partial-source:%s" % reason              # the source is the tree under an earlier proof; named by the failing clause
     if k == "Key":
         if reason == "value:pruned" and cls == "twin":
             return "C18:shared-sibling-subtree"              # the sibling pruned at a fork is the same cell as the path's child
@@ -71,7 +80,11 @@ def judge(ck, traces, stats):
             e, seg = rj["event"], rj["segment"]
             r = seg[0]
             reason, cls = notes.get(rj["line"], ("no-action", ""))
-            if reason.startswith("domain:"):
+            if reason.startswith("skip:") and not str(r.get("src", "")).startswith("gen"):
+                # the first-step proof the library produced is itself wrong (judged in its own segment): nothing to say here
+                stats["skipped_two_step_segments"] += 1
+                continue
+            if reason.startswith("domain:") or reason.startswith("skip:"):
                 raise Infra("harness / specification inconsistency (%s) at %s line %d: %s" % (reason, tp, rj["line"], json.dumps(cellcommon.slim(e, 800))))
             key = finding_key(e, reason, cls)
             stats["rejected:" + key] += 1
@@ -80,7 +93,8 @@ def judge(ck, traces, stats):
                 nreq, "%d-bit dictionary" % r["n"] if r.get("kind") == "dict" else "tree", len(r["cells"]), r.get("src"), r.get("mode"))
             cl = {"twin": "; the key's path passes a fork whose two children are the same cell",
                   "valueref": "; a cell referenced by the key's value is the same cell as the sibling at a fork of its path",
-                  "leak": "; every unaccounted pruned branch was pruned by an EARLIER request of the same prover"}.get(cls, "")
+                  "leak": "; every unaccounted pruned branch was pruned by an EARLIER request of the same prover",
+                  "partial": "; the source is the tree under an earlier proof (it contains pruned branches)"}.get(cls, "")
             if e.get("k") == "Key":
                 what = "ProofOK fails at clause '%s' for key %s (%s%s): ProveKeyInHashmap returned err=%r proof=%s" % (
                     reason, e["key"], ctx, cl, e.get("msg", e["err"]), e["proof"][:400])
@@ -90,13 +104,17 @@ def judge(ck, traces, stats):
             else:
                 what = "recorded event has no action in MerkleProof_Trace (%s): %s" % (ctx, json.dumps(cellcommon.slim(e, 600)))
             found.append((len(r["cells"]) * 1000 + rj["accepted"], key, what, {"kind": "vector", "vector": vector_of(seg, rj["accepted"])}))
+    if stats["skipped_two_step_segments"] and not found:
+        raise Infra("%d two-step segments could not be judged (source is not a view of the original) although no first-step proof was rejected" % stats["skipped_two_step_segments"])
     return found
 
 
 # expected verdicts of the synthetic segments of spec/gen/MerkleProof_Canary.tla: (accepted events, clause, class)
-CANARY_EXPECT = [("W1", None), ("W2", ("pruned-but-not-asked", "leak")), ("W3", ("pruned-but-not-asked", "plain")), ("W4", ("well-formed", "plain")),
+CANARY_EXPECT = [("W1", None), ("W2", ("pruned-but-not-asked", "leak")), ("W3", ("pruned-but-not-asked", "plain")), ("W4", ("stored-hash", "plain")),
                  ("W5", None), ("W6", ("pruned-but-not-asked", "leak")), ("D1", None), ("D2", ("value:pruned", "leak")), ("D3", ("value:pruned", "plain")),
-                 ("D4", ("absent-key-proved", "plain")), ("D5", ("well-formed", "plain")), ("D6", ("returned-value", "plain"))]
+                 ("D4", ("absent-key-proved", "plain")), ("D5", ("stored-hash", "plain")), ("D6", ("returned-value", "plain")),
+                 ("P1", None), ("P2", ("level-mask", "partial")), ("P3", ("stored-hash", "partial")), ("P4", ("pruned-cell", "partial")),
+                 ("Q1", None), ("Q2", ("stored-hash", "partial"))]
 
 
 def canaries(ck):
@@ -130,12 +148,14 @@ def generate(ck):
     q = not ck.thorough
     jobs = [("MerkleProof_Gen", "gen/MerkleProof_Gen_quick.cfg" if q else "gen/MerkleProof_Gen_full.cfg", "gen_walk"),
             ("MerkleProof_Gen", "gen/MerkleProof_Gen_free_quick.cfg" if q else "gen/MerkleProof_Gen_free_full.cfg", "gen_walk_free"),
-            ("MerkleProof_GenD", "gen/MerkleProof_GenD_quick.cfg" if q else "gen/MerkleProof_GenD_full.cfg", "gen_dict")]
-    rs = vlib.parallel(lambda j: ck.tlc_or_infra(j[0], j[1], workers=4, timeout=1500, name=j[2], heap_gb=2), jobs, n=3)
-    walks, free, dicts = rs[0].vecs(), rs[1].vecs(), rs[2].vecs()
-    if len(walks) < 5000 or len(free) < 500 or len(dicts) < 1000:
-        raise Infra("generators produced too few vectors (%d, %d, %d)" % (len(walks), len(free), len(dicts)))
-    if not all(v["selfcheck"] for v in dicts):
+            ("MerkleProof_GenD", "gen/MerkleProof_GenD_quick.cfg" if q else "gen/MerkleProof_GenD_full.cfg", "gen_dict"),
+            ("MerkleProof_Gen", "gen/MerkleProof_Gen_two_quick.cfg" if q else "gen/MerkleProof_Gen_two_full.cfg", "gen_walk_two"),
+            ("MerkleProof_GenD", "gen/MerkleProof_GenD_two_quick.cfg" if q else "gen/MerkleProof_GenD_two_full.cfg", "gen_dict_two")]
+    rs = vlib.parallel(lambda j: ck.tlc_or_infra(j[0], j[1], workers=3, timeout=1500, name=j[2], heap_gb=2), jobs, n=5)
+    walks, free, dicts, walks2, dicts2 = (r.vecs() for r in rs)
+    if len(walks) < 5000 or len(free) < 500 or len(dicts) < 1000 or len(walks2) < 5000 or len(dicts2) < 2000:
+        raise Infra("generators produced too few vectors (%d, %d, %d, %d, %d)" % (len(walks), len(free), len(dicts), len(walks2), len(dicts2)))
+    if not all(v["selfcheck"] for v in dicts + dicts2):
         raise Infra("generator self-check failed (the reference dictionary fails its own decoder)")
     for v in dicts:          # the same prover is asked once more for its first key, after all the others
         if len(v["keys"]) > 1:
@@ -144,13 +164,23 @@ def generate(ck):
         v["src"] = "gen:free"
     for v in walks:
         v["src"] = "gen:dfs"
+    for v in walks2:
+        v["src"] = "gen:two-step"
     for v in dicts:
         v["src"] = "gen:%s:%s" % (v["vmode"], "".join(f[0] for f in v["forms"]))
+    for v in dicts2:
+        v["src"] = "gen:two-step:%s:%s" % (v["vmode"], "".join(f[0] for f in v["forms"]))
+        v.pop("exp", None)
+    # two-step walks: prefer scripts that prune in the second step (next to / on / above the first step's pruned branches)
+    def prunes(v):
+        return any(st["k"] == "Prune" for st in v["script"])
+    w2a, w2b = [v for v in walks2 if prunes(v)], [v for v in walks2 if not prunes(v)]
     twin = [v for v in dicts if any(v["twin"])]
     plain = [v for v in dicts if not any(v["twin"])]
     if not twin:
         raise Infra("no generated dictionary has a fork with two equal children (vacuous)")
-    ck.extra["generated"] = {"walk_dfs": len(walks), "walk_free": len(free), "dict": len(dicts), "dict_with_equal_siblings": len(twin)}
+    ck.extra["generated"] = {"walk_dfs": len(walks), "walk_free": len(free), "dict": len(dicts), "dict_with_equal_siblings": len(twin),
+                             "walk_two_step": len(walks2), "dict_two_step": len(dicts2)}
     def later_request_after_prune(v):      # a session that starts after an earlier session pruned something
         seen = False
         for st in v["script"]:
@@ -162,15 +192,19 @@ def generate(ck):
     seq = [v for v in walks if later_request_after_prune(v)]
     other = [v for v in walks if not later_request_after_prune(v)]
     ck.extra["generated"]["walk_dfs_with_session_after_prune"] = len(seq)
-    for l in (seq, other, free, twin, plain):
+    for l in (seq, other, free, twin, plain, w2a, w2b, dicts2):
         ck.rng.shuffle(l)
     if q:
-        seq, other, free, twin, plain = seq[:220], other[:100], free[:100], twin[:100], plain[:170]
+        seq, other, free, twin, plain = seq[:200], other[:80], free[:80], twin[:100], plain[:150]
+        w2a, w2b, dicts2 = w2a[:420], w2b[:60], dicts2[:320]
     else:
         seq, other, free = seq[:7000], other[:3000], free[:4000]
-    vecs = seq + other + free + twin + plain
+        w2a, w2b, dicts2 = w2a[:12000], w2b[:1500], dicts2[:8000]
+    vecs = seq + other + free + twin + plain + w2a + w2b + dicts2
     for i, v in enumerate(vecs):
         v["vec"] = i
+        if "orig" in v:
+            v["orig"] = [{"b": c["b"], "x": c["x"], "r": c["r"]} for c in v["orig"]]
         for f in ("selfcheck", "reqs", "twin", "forms", "vmode"):
             v.pop(f, None)
     return vecs
@@ -197,17 +231,18 @@ def run(ck):
     stats = Counter()
     proofs = set()
     for tp in rtraces + dtraces:
-        mode, nreq, seg = "", 0, 0
+        mode, nreq, seg, two = "", 0, 0, False
         for e in vlib.read_ndjson(tp):
             k = e.get("k")
             if k == "Reset":
-                mode, nreq, seg = e["mode"], 0, seg + 1
+                mode, nreq, seg, two = e["mode"], 0, seg + 1, "orig" in e
                 stats["%s_provers:%s" % (e["kind"], mode)] += 1
             elif k == "Key":
                 nreq += 1
                 if e["proof"]:
                     stats["dict_proofs"] += 1; proofs.add(e["proof"])
                     stats["dict_proofs_after_first_request"] += nreq > 1
+                    stats["dict_proofs_two_step"] += two
                 elif e["err"]:
                     stats["dict_refusals"] += 1; proofs.add((tp, seg, e["key"]))
             elif k == "Create":
@@ -215,10 +250,12 @@ def run(ck):
                 if e["proof"]:
                     stats["walk_proofs"] += 1; proofs.add(e["proof"])
                     stats["walk_proofs_after_first_request"] += nreq > 1
+                    stats["walk_proofs_two_step"] += two
     if (stats["dict_proofs"] < 1500 or stats["dict_refusals"] < 800 or stats["walk_proofs"] < 1500
-            or stats["dict_proofs_after_first_request"] < 1000 or stats["walk_proofs_after_first_request"] < 800):
+            or stats["dict_proofs_after_first_request"] < 1000 or stats["walk_proofs_after_first_request"] < 800
+            or stats["dict_proofs_two_step"] < 300 or stats["walk_proofs_two_step"] < 500):
         raise Infra("too few proofs recorded (vacuous): %s" % dict(stats))
-    for m in ("tree", "dag", "boc", "lib"):
+    for m in ("tree", "dag", "boc", "lib", "proof"):
         if not stats["dict_provers:" + m]:
             raise Infra("no dictionary was proven in build mode %s" % m)
     canaries(ck)
